@@ -27,5 +27,15 @@ func Truncate(s string, opts hctx.Map) string {
 	if len(runesTrail) >= size {
 		return trail
 	}
-	return string(runesS[:size-len(runesTrail)]) + trail
+	// cut s at the byte offset of the rune boundary so that the result is a true
+	// prefix of s even when s contains invalid UTF-8
+	keep, cut := size-len(runesTrail), len(s)
+	for i := range s {
+		if keep == 0 {
+			cut = i
+			break
+		}
+		keep--
+	}
+	return s[:cut] + trail
 }
